@@ -103,6 +103,7 @@ class Ctx:
             return True, fn(*args, **kwargs)
         except CaseTimeout:
             self.timeouts += 1
+            self.inconclusive["watchdog@" + str(getattr(self, "stratum", "-"))] += 1
             STATE.depth = 0
             return False, None
         except Exception as e:  # harness bug or an exception the check did not anticipate: inconclusive
